@@ -232,7 +232,7 @@ def run(ctx):
         'block with each of 13 service behaviours (200, no groups key, empty groups, 404 user, 404 groups, unreachable, groups unreachable, bad JSON, 500/204 user, 403/500 groups) or no/'
         'non-string url; two blocks over the product of behaviours; every ordered arrangement of 7 block states over two blocks '
         '(and over three: all in thorough, those ending in a non-consulted block + a spread in quick); mixed} x one connection '
-        '[valid Create, malformed frame, valid Get] against the real session with a real engine (thorough: the whole product; quick: '
+        '[valid Create, malformed frame, valid Get] against the real session with a real engine (thorough: plain shapes x all configurations, subject encodings x all configurations of <= 2 blocks; quick: '
         'plain shapes x basic configurations in full, arrangements x 5 decisive certificates, subject encodings x 8 decisive '
         'configurations); for every second cell the '
         'auth_settings are written to a server configuration file and read back by the real KmipServerConfig.  Every cell is run; a case is '
@@ -267,7 +267,12 @@ def run(ctx):
             cells = (list(itertools.product(base_c, (True, False), base_p)) + list(itertools.product(key_c, (True, False), perm_p))
                      + list(itertools.product(lay_c, (True, False), key_p)))
         else:
-            cells = list(itertools.product(certs, (True, False), configs))
+            # plain shapes x every configuration (incl. all arrangements over three blocks); the alternative subject
+            # encodings x every configuration of at most two blocks
+            base_c = [c for c in certs if c[1] is None or len(c[1]) == 2]
+            lay_c = [c for c in certs if c[1] is not None and len(c[1]) > 2]
+            upto2 = [p for p in configs if len(p[1]) <= 2]
+            cells = list(itertools.product(base_c, (True, False), configs)) + list(itertools.product(lay_c, (True, False), upto2))
         for (clabel, cert), tls, (plabel, plugins) in cells:
             label = '%s|tls=%s|%s' % (clabel, tls, plabel)
             s = stream if n % 7 else destroy + garbage + get          # now and then a destructive first request
